@@ -99,6 +99,10 @@ def mk_exc(name: str, args=()) -> ExcV:
     return ExcV(name, exc_bases(name), args)
 
 
+from .mapseq import LazyComp as LazyComp_   # mapseq (C19x)
+from . import eagergen   # eager generators (C19x)
+
+
 class Frame:
     __slots__ = ('locals', 'module', 'fn', 'cls', 'parent')
 
@@ -574,6 +578,10 @@ class Path:
         return Opaque('fstring') if r is None else r
 
     def ev_Tuple(self, node, fr):
+        from . import mapseq   # mapseq: `(*a, x, *b)` over symbolic sequences (C19x)
+        r = mapseq.starred_tuple(self, node, fr)
+        if r is not seqs.NOT_HANDLED:
+            return r
         out = []
         for e in node.elts:
             if isinstance(e, ast.Starred):
@@ -842,6 +850,11 @@ class Path:
                 from . import absnodes
                 it_ = absnodes.as_symset(it_)
                 raise absnodes.CompOverSymSet(absnodes.comp_over_symset(self, node, fr, it_))
+            if i == 0 and isinstance(it_, seqs.SymSeq):   # mapseq: effect-free comprehension over a symbolic sequence (C19x)
+                from . import mapseq
+                r = mapseq.comp_over_seq(self, node, inner, it_, 'list')
+                if r is not seqs.NOT_HANDLED:
+                    raise mapseq.LazyComp(r)
             for item in self.iterate(it_):
                 self.assign(g.target, item, inner)
                 ok = True
@@ -852,8 +865,17 @@ class Path:
                         break
                 if ok:
                     rec(i + 1)
-        rec(0)
+        try:
+            rec(0)
+        except LazyComp_ as e:   # mapseq
+            return e.seq
         return out
+
+    def ev_Yield(self, node, fr):   # eagergen
+        return eagergen.ev_Yield(self, node, fr)
+
+    def ev_YieldFrom(self, node, fr):   # eagergen
+        return eagergen.ev_YieldFrom(self, node, fr)
 
     def ev_Starred(self, node, fr):
         raise Unsupported('starred')
@@ -1831,6 +1853,13 @@ class Path:
             fr = Frame(info.module, info, info.cls, parent=f.closure)
             self.new_dict(fr.locals)
             self.bind_args(info.node.args, args, kwargs, fr, info.qualname, Frame(info.module, cls=info.cls, parent=f.closure))
+            if eagergen.is_generator(info):   # eagergen: a generator function yields a list (C19x)
+                def body():
+                    try:
+                        self.exec_block(info.node.body, fr)
+                    except _Return:
+                        pass
+                return eagergen.run(self, info, fr, body)
             try:
                 self.exec_block(info.node.body, fr)
             except _Return as r:
